@@ -197,6 +197,98 @@ FNS = {
 }
 
 
+TWIN = r"""
+// Kani twin of the Verus contract: the same verbatim-extracted functions against executable closed forms; used only to
+// obtain a concrete failing pair of versions when Verus refutes an obligation (Verus gives no counterexample).
+#![allow(unused, non_snake_case)]
+#[derive(Debug, Copy, Clone, PartialEq, Eq)]
+%(en)s
+
+#[derive(Debug, Copy, Clone, PartialEq, Eq)]
+%(len)s
+
+impl WorldVersion {
+%(ov)s
+
+%(cv)s
+}
+impl LoginVersion {
+%(lov)s
+
+%(lfu)s
+}
+fn level(v: WorldVersion) -> u8 { match v { WorldVersion::All => 0, WorldVersion::Major(_) => 1, WorldVersion::Minor(_, _) => 2, WorldVersion::Patch(_, _, _) => 3, WorldVersion::Exact(_, _, _, _) => 4 } }
+fn comp(v: WorldVersion, k: u8) -> u32 {
+    match v {
+        WorldVersion::All => 0,
+        WorldVersion::Major(m) => if k == 0 { m as u32 } else { 0 },
+        WorldVersion::Minor(m, i) => if k == 0 { m as u32 } else if k == 1 { i as u32 } else { 0 },
+        WorldVersion::Patch(m, i, p) => if k == 0 { m as u32 } else if k == 1 { i as u32 } else if k == 2 { p as u32 } else { 0 },
+        WorldVersion::Exact(m, i, p, b) => if k == 0 { m as u32 } else if k == 1 { i as u32 } else if k == 2 { p as u32 } else { b as u32 },
+    }
+}
+fn agree(a: WorldVersion, b: WorldVersion, n: u8) -> bool {
+    (n < 1 || comp(a, 0) == comp(b, 0)) && (n < 2 || comp(a, 1) == comp(b, 1)) && (n < 3 || comp(a, 2) == comp(b, 2)) && (n < 4 || comp(a, 3) == comp(b, 3))
+}
+#[cfg(kani)]
+fn any_world() -> WorldVersion {
+    let t: u8 = kani::any();
+    match t %% 5 { 0 => WorldVersion::All, 1 => WorldVersion::Major(kani::any()), 2 => WorldVersion::Minor(kani::any(), kani::any()),
+        3 => WorldVersion::Patch(kani::any(), kani::any(), kani::any()), _ => WorldVersion::Exact(kani::any(), kani::any(), kani::any(), kani::any()) }
+}
+#[cfg(kani)]
+fn any_login() -> LoginVersion { if kani::any() { LoginVersion::All } else { LoginVersion::Specific(kani::any()) } }
+#[cfg(kani)]
+#[kani::proof]
+#[kani::unwind(1)]
+fn twin_overlaps() {
+    let (a, b) = (any_world(), any_world());
+    let n = if level(a) < level(b) { level(a) } else { level(b) };
+    assert!(a.overlaps(&b) == agree(a, b, n), "C16:overlaps-iff-version-sets-intersect");
+}
+#[cfg(kani)]
+#[kani::proof]
+#[kani::unwind(1)]
+fn twin_covers() {
+    let (a, b) = (any_world(), any_world());
+    assert!(a.covers(&b) == (level(a) <= level(b) && agree(a, b, level(a))), "C16:covers-iff-version-set-included");
+}
+#[cfg(kani)]
+#[kani::proof]
+#[kani::unwind(1)]
+fn twin_login() {
+    let (a, b) = (any_login(), any_login());
+    let ov = match (a, b) { (LoginVersion::Specific(x), LoginVersion::Specific(y)) => x == y, _ => true };
+    let cv = match (a, b) { (LoginVersion::All, _) => true, (LoginVersion::Specific(x), LoginVersion::Specific(y)) => x == y, _ => false };
+    assert!(a.overlaps(&b) == ov, "C16:overlaps-iff-version-sets-intersect");
+    assert!(a.fullfills(&b) == cv, "C16:login-fullfills-iff-version-set-included");
+}
+"""
+
+
+def twin_counterexample(scratch):
+    """returns text with the concrete failing values found by the Kani twin (or '')"""
+    src = vlib.read(os.path.join(vlib.REPO, SRC))
+    parts = dict(
+        en=vlib.extract_item(src, r"^pub enum WorldVersion ", "enum")[2],
+        ov=vlib.extract_item(src, r"^    pub fn overlaps\(&self, other: &Self\) -> bool ", "overlaps")[2],
+        cv=vlib.extract_item(src, r"^    pub fn covers\(&self, other: &Self\) -> bool ", "covers")[2],
+        len=vlib.extract_item(src, r"^pub enum LoginVersion ", "enum")[2],
+        lov=vlib.extract_item(src, r"^    pub\(crate\) fn overlaps\(&self, other: &Self\) -> bool ", "loverlaps")[2],
+        lfu=vlib.extract_item(src, r"^    pub\(crate\) fn fullfills\(&self, other: &Self\) -> bool ", "fullfills")[2])
+    d = os.path.join(scratch, "repo", "verif_c16_twin")
+    os.makedirs(os.path.join(d, "src"), exist_ok=True)
+    vlib.write(os.path.join(d, "Cargo.toml"), '[package]\nname = "verif_c16_twin"\nversion = "0.0.0"\nedition = "2021"\n[workspace]\n')
+    vlib.write(os.path.join(d, "src/lib.rs"), TWIN % parts)
+    res, meta = vlib.kani_run(scratch, "verif_c16_twin", ["twin_overlaps", "twin_covers", "twin_login"], jobs=1, harness_timeout=300, playback=True)
+    out = []
+    for h, chk, test in vlib.extract_playback_tests(meta["out"]):
+        if "cover" in test.split("Check for")[1][:10]:
+            continue
+        out.append("harness %s, failed check %s:\n%s" % (h, chk, test))
+    return "\n".join(out)
+
+
 def check(tier, seed):
     run = vlib.Run(PROP, tier, seed)
     scratch = vlib.make_scratch(with_repo=False)
@@ -216,7 +308,23 @@ def check(tier, seed):
         run.samples = ["WorldVersion::overlaps: ensures r == overlaps_closed(self, other); lemma: overlaps_closed <=> exists build e. den(a,e) && den(b,e)",
                        "WorldVersion::covers: ensures r == covers_closed(self, other); lemma: covers_closed <=> forall e. den(b,e) ==> den(a,e)"]
         # overlaps appears twice (WorldVersion / LoginVersion): the JSON verdict is per name and conjunctive
-        return run.finish(None)
+        def hook(refuted):
+            import json
+            try:
+                cex = twin_counterexample(scratch)
+            except Exception as e:
+                cex = ""
+                vlib.log("[c16 twin] %r" % (e,))
+            for r in refuted:
+                path = os.path.join(vlib.VERIF, "replays", PROP, vlib.slug(r["contract"] + "__" + r["obligation"]) + ".json")
+                vlib.write(path, json.dumps(dict(property=PROP, obligation=r["obligation"], contract=r["contract"], engine="verus",
+                                                 verifier_output=r.get("detail", ""), failing_input=cex or None,
+                                                 note="failing_input comes from the Kani twin (same extracted functions, executable closed forms): "
+                                                      "byte values of the symbolic version tags/components in the generated playback test"), indent=1))
+                r["replay"] = path
+                r["has_input"] = bool(cex)
+        os.makedirs(os.path.join(scratch, "repo"), exist_ok=True)
+        return run.finish(hook)
     finally:
         vlib.drop_scratch(scratch)
 
